@@ -276,7 +276,7 @@ CLAIMED['C18'] = dict(
          'file rejected: theorems empty_file_rejected, duplicate_key_rejected, buildSpec_members) tied by correspondence on files of 1..6 '
          'members with every annotation subset/order and random separators; the statement itself (file = sequence of its members parsed alone, '
          'same error class as the offending member) is decided on the implementation.'
-         ' Exact (Props/C18d): parseFileToks_iff - a token text parses as a file to rs iff it is the concatenation of k >= 1 texts each parsing as a property on its own with results rs (truncation lemmas pProperty_trunc etc. through parse_sound; pFile_split). General statement (Props/C18c): parseFileToks_concat - for any k >= 1 token texts each parsing as a property on its own, the file parser on their concatenation returns exactly the k results in order (parser locality parse_ext/ExtP, property_starts); parseSpecification_concat, parseProperty_of_toks at the entry points. Text level (Props/C06k, C18b): parse_printed_file - the text of k printed properties, one per line, is scanned and parsed back to exactly those k property trees; parseFileToks_sim.',
+         ' On texts (Props/C18e, C18f): parseSpecification_of_texts - k >= 1 texts each read by parse_property on its own, written one per line, are read by parse_specification as exactly their k properties in order (scan_append: the scanner is local at white space; property_balanced: a text that parses closes its braces). Exact at token level (Props/C18d): parseFileToks_iff - a token text parses as a file to rs iff it is the concatenation of k >= 1 texts each parsing as a property on its own with results rs (truncation lemmas pProperty_trunc etc. through parse_sound; pFile_split). General statement (Props/C18c): parseFileToks_concat - for any k >= 1 token texts each parsing as a property on its own, the file parser on their concatenation returns exactly the k results in order (parser locality parse_ext/ExtP, property_starts); parseSpecification_concat, parseProperty_of_toks at the entry points. Text level (Props/C06k, C18b): parse_printed_file - the text of k printed properties, one per line, is scanned and parsed back to exactly those k property trees; parseFileToks_sim.',
     design_ref='DESIGN.md §6 C18',
     note='PARTIAL: the segmentation lemma (a rendered property is followed only by tokens that cannot extend it) is not yet a theorem.',
     technique='Lean 4 model + theorems on file assembly (partial) + member-wise correspondence')
